@@ -110,8 +110,9 @@ class P1Pinger (object):
 
 
 class P1Sock (object):
-  def __init__ (self, script):
+  def __init__ (self, script, tag=""):
     self.script = script
+    self.tag = tag
     self.accepted = b""
     self.calls = []            # (offered, outcome)
     self.closed = 0
@@ -128,7 +129,7 @@ class P1Sock (object):
     if self.shutwr:
       self.calls.append((n, "after-shutwr"))
       raise _socket.error(errno.EPIPE, "broken pipe")
-    kind, k = self.script.outcome(n, "sock.send")
+    kind, k = self.script.outcome(n, "sock%s.send" % self.tag)
     self.calls.append((n, kind))
     if kind == "eagain": raise _socket.error(errno.EAGAIN, "would block")
     if kind == "epipe": raise _socket.error(errno.EPIPE, "broken pipe")
@@ -152,6 +153,11 @@ def p1_setup ():
     io.makePinger = P1Pinger
     io.log = _LOG
     _p1_ready = True
+  # executions must be independent: clear class-level mutable state an earlier execution may have left behind
+  # (sharing of such state is reproduced INSIDE one execution by the two-worker / reconnect scenarios)
+  for cls in (io.IOWorker, io.RecocoIOWorker):
+    for v in list(vars(cls).values()):
+      if isinstance(v, (bytearray, list, dict, set)): v.clear()
   return io
 
 
@@ -336,6 +342,165 @@ def p1_worker (c):
   explore(lambda ctx: p1_exec(ctx, c), dev_bound=c["bound"], on_exec=on_exec)
   k = "execs:" + p1_name(c)
   rep.extra[k] = rep.evaluations
+  rep.state_count = rep.evaluations
+  return rep
+
+
+# ---- part 1, several workers in one loop (and a worker created after another one was closed) ----------------
+# ops: ("send"|"fast", worker, message index) | ("close", worker) | ("new", worker)
+TWO_ORDERS = {
+  "A0-B0-A1-B1": [("q", "A", 0), ("q", "B", 2), ("q", "A", 1), ("q", "B", 3)],
+  "A0-A1-B0-B1": [("q", "A", 0), ("q", "A", 1), ("q", "B", 2), ("q", "B", 3)],
+  "A0-A1-closeA-newC-C0-C1": [("q", "A", 0), ("q", "A", 1), ("close", "A"), ("new", "C"), ("q", "C", 2), ("q", "C", 3)],
+  "A0-B0-closeA-newC-C0-B1": [("q", "A", 0), ("q", "B", 2), ("close", "A"), ("new", "C"), ("q", "C", 1), ("q", "B", 3)],
+}
+
+
+def p1two_exec (ctx, c):
+  """One execution with several workers.  c: dict(two=order name, api='send'|'fast', calls, bound).
+  Returns (bad, observation)."""
+  io = p1_setup()
+  _LOG.records = []
+  script = Script(ctx, c["calls"], half=True)
+  loop = io.RecocoIOLoop()
+  pinger = loop.pinger
+  names = []; workers = {}; socks = {}; closes = {}; queued = {}; by_client = set()
+  def new (nm):
+    sk = P1Sock(script, nm)
+    w = loop.new_worker(sk)
+    closes[nm] = []
+    w.close_handler = lambda w_, nm=nm: closes[nm].append(1)
+    names.append(nm); workers[nm] = w; socks[nm] = sk; queued[nm] = []
+    return w
+  ops = list(TWO_ORDERS[c["two"]])
+  for nm in sorted(set(o[1] for o in ops) - set(o[1] for o in ops if o[0] == "new")): new(nm)
+  gen = loop.run()
+  st = dict(sel=None, alive=True, started=False, ops=0)
+  hist = []
+
+  def answer ():
+    sel = st["sel"]
+    r, w = sel._args[0], sel._args[1]
+    # workers are serviced in creation order (the loop iterates over the list it is given)
+    return ([o for o in r if o is pinger and pinger.pings > 0], [workers[nm] for nm in names if workers[nm] in w], [])
+
+  def loop_step (timeout=False):
+    st["ops"] += 1
+    try:
+      if not st["started"]:
+        st["started"] = True; st["sel"] = next(gen)
+      else:
+        st["sel"] = gen.send(([], [], []) if timeout else answer())
+    except StopIteration:
+      st["alive"] = False; st["sel"] = None
+
+  def can_loop ():
+    if not st["alive"]: return False
+    if not st["started"]: return True
+    a = answer()
+    return bool(a[0] or a[1])
+
+  def check (quiescent=False):
+    if not st["alive"]:
+      exc = [r for r in _LOG.records if r[0] == "exception"]
+      where = "%s:%s" % (exc[-1][1], exc[-1][2]) if exc else "?"
+      return ("loop-died:" + where, "RecocoIOLoop.run ended (%s)" % where)
+    exc = [r for r in _LOG.records if r[0] == "exception"]
+    if exc:
+      return ("logged-exception:%s:%s" % (exc[0][1], exc[0][2]), "an exception was caught and logged inside the worker: %s at %s" % (exc[0][2], exc[0][1]))
+    for nm in names:
+      sk = socks[nm]; exp = b"".join(queued[nm])
+      if not exp.startswith(sk.accepted):
+        others = b"".join(b"".join(queued[o]) for o in names if o != nm)
+        if any(ch in others and ch not in exp for ch in sk.accepted):
+          return ("stream-foreign-bytes", "worker %s: its socket accepted %r, which contains bytes queued on another worker (own queue %r, others %r)"
+                  % (nm, sk.accepted, exp, others))
+        return ("stream-prefix", "worker %s: socket accepted %r which is not a prefix of the queued messages %r" % (nm, sk.accepted, exp))
+      ff = first_fatal(sk.calls)
+      if ff is not None and len(sk.calls) > ff + 1:
+        return ("send-after-fatal", "worker %s: socket.send called again after a fatal send error: calls %r" % (nm, sk.calls))
+      if len(closes[nm]) > 1:
+        return ("closed-twice", "worker %s: the close handler ran %d times" % (nm, len(closes[nm])))
+      if ff is None and nm not in by_client and closes[nm]:
+        return ("closed-spurious", "worker %s: close handler ran without a fatal error or a close request" % nm)
+      if quiescent:
+        if ff is not None or nm in by_client:
+          if len(closes[nm]) != 1:
+            return ("close-count", "worker %s is lost but its close handler ran %d times" % (nm, len(closes[nm])))
+        elif sk.accepted != exp:
+          return ("stream-incomplete", "worker %s: at quiescence the socket accepted %r of %r (send_buf=%r)" % (nm, sk.accepted, exp, bytes(workers[nm].send_buf)))
+    return None
+
+  bad = None; qi = 0; timeouts = 0
+  while bad is None:
+    cq = qi < len(ops)
+    cl = can_loop()
+    if cq and cl: ch = ctx.choose(2, "next-op", costly=False)
+    elif cq: ch = 0
+    elif cl: ch = 1
+    else:
+      if timeouts >= 2 or not st["alive"]:
+        bad = check(quiescent=True); break
+      timeouts += 1
+      loop_step(timeout=True); hist.append("timeout")
+      bad = check(); continue
+    timeouts = 0
+    if ch == 0:
+      op = ops[qi]; qi += 1
+      st["ops"] += 1
+      try:
+        if op[0] == "new":
+          w = new(op[1]); hist.append("new " + op[1])
+          if len(w.send_buf):
+            bad = ("new-worker-not-empty", "a newly created worker starts with %r in its send buffer" % bytes(w.send_buf)); break
+        elif op[0] == "close":
+          by_client.add(op[1]); hist.append("close " + op[1])
+          workers[op[1]].close()
+        else:
+          m = MSGS[op[2]]; nm = op[1]
+          queued[nm].append(m); hist.append("%s %s %s" % (c["api"], nm, m.decode()))
+          (workers[nm].send if c["api"] == "send" else workers[nm].send_fast)(m)
+      except Exception as e:
+        bad = ("raises:%s:%s" % (site_of(e), type(e).__name__), "%r raised %s: %s" % (op, type(e).__name__, e))
+        break
+    else:
+      loop_step(); hist.append("loop")
+    bad = check()
+  try: gen.close()
+  except Exception: pass
+  obs = dict(two=c["two"], api=c["api"], history=hist, socket_calls={nm: list(socks[nm].calls) for nm in names},
+             accepted={nm: socks[nm].accepted for nm in names}, queued={nm: b"".join(queued[nm]) for nm in names},
+             send_buf={nm: bytes(workers[nm].send_buf) for nm in names},
+             close_handler_runs={nm: len(closes[nm]) for nm in names}, steps=st["ops"])
+  return bad, obs
+
+
+def p1two_configs (cfg):
+  cs = []
+  for order in sorted(TWO_ORDERS):
+    for api in ("send", "fast"):
+      big = order == "A0-B0-closeA-newC-C0-B1"          # three workers: the interleaving space is an order of magnitude larger
+      cs.append(dict(part=1, two=order, api=api, calls=6, bound=cfg.pick(1, 2) if big else cfg.pick(2, 3)))
+  return cs
+
+
+def p1two_name (c):
+  return "p1/workers/%s/%s" % (c["two"], c["api"])
+
+
+def p1two_worker (c):
+  rep = Report(PID, "model_checking")
+  def on_exec (ctx, res):
+    bad, obs = res
+    rep.evaluations += 1
+    rep.transitions += obs["steps"]
+    rep.outcome(("p1two", obs["two"], obs["api"], obs["history"], sorted(obs["socket_calls"].items()), sorted(obs["accepted"].items()), bad and bad[0]))
+    if rep.evaluations % 997 == 1: rep.sample(dict(part=1, **obs))
+    if bad:
+      rep.violation("%s:p1:%s" % (PID, bad[0]), "%s [%s]" % (bad[1], p1two_name(c)),
+                    dict(part=1, config=c, choices=ctx.choices()))
+  explore(lambda ctx: p1two_exec(ctx, c), dev_bound=c["bound"], on_exec=on_exec)
+  rep.extra["execs:" + p1two_name(c)] = rep.evaluations
   rep.state_count = rep.evaluations
   return rep
 
@@ -835,6 +1000,10 @@ def run (cfg):
   if only: c1 = [c for c in c1 if only in p1_name(c)]
   for r in pmap(p1_worker, c1, cfg.workers, seed=cfg.seed):
     rep.merge(r)
+  c1b = p1two_configs(cfg)
+  if only: c1b = [c for c in c1b if only in p1two_name(c)]
+  for r in pmap(p1two_worker, c1b, cfg.workers, seed=cfg.seed):
+    rep.merge(r)
   # ---- part 2
   c2 = p2_configs(cfg)
   if only: c2 = [c for c in c2 if only in p2_name(c)]
@@ -856,7 +1025,9 @@ def run (cfg):
   rep.rule = ("part 1: real RecocoIOWorker in a hand-driven RecocoIOLoop.run() generator; messages %r queued with every listed "
               "send/send_fast combination (variants: close() at the end; worker.shutdown() after 0..3 of the sends; a worker that is "
               "still connecting, whose connect handler queues nothing / send(m4) / send_fast(m4) when the connect completes on the loop's first "
-              "pass, with 0..3 messages buffered before); every interleaving "
+              "pass, with 0..3 messages buffered before; two workers A and B in one loop with two messages each, sends interleaved A,B,A,B or "
+              "A,A,B,B, and reconnect histories where A is closed with bytes possibly still buffered and a NEW worker C is created and used: "
+              "every socket receives exactly its own worker's bytes); every interleaving "
               "of client calls and loop iterations; every script of socket.send outcomes {accept all, accept 1, accept n-1, accept "
               "ceil(n/2), EAGAIN, EPIPE} over the first 6 "
               "send calls with <= %d non-default outcomes.  part 2: real of_01.Connection.send on a controlled cooperative thread "
@@ -872,7 +1043,7 @@ def run (cfg):
               "later sends on connection 1.  "
               "distinct = (variant, history/verdict, socket calls, accepted bytes, notifications, failed clauses)"
               % (list(MSGS[:3]), cfg.pick(2, 3), ", ".join(FUNCS), BACKLOGS))
-  rep.bound = dict(part1=dict(configs=len(c1), send_calls_scripted=6, script_deviations=cfg.pick(2, 3)),
+  rep.bound = dict(part1=dict(configs=len(c1) + len(c1b), send_calls_scripted=6, script_deviations=cfg.pick(2, 3)),
                    part2=dict(configs=len(c2), send_calls_scripted=4, scheduling_points_default_execution=pts))
   rep.assumptions = ["C-level atomicity of dict/list operations (CPython GIL); code outside the listed of_01 functions runs atomically between scheduling points",
                      "modelled RLock/select/waker (mc/thr.py); the fake socket is always writable until closed, a shut-down socket is readable/writable and fails sends with EPIPE, "
@@ -892,6 +1063,13 @@ def explains (known_key, key):
 
 def replay (cfg, data):
   c = dict(data["config"])
+  if data.get("part") == 1 and c.get("two"):
+    bad, obs = p1two_exec(Ctx(list(data["choices"])), c)
+    lines = [p1two_name(c)]
+    for k in ("history", "queued", "socket_calls", "accepted", "send_buf", "close_handler_runs"):
+      lines.append("  %-20s %r" % (k, obs[k]))
+    lines.append("=> %r" % (bad,))
+    return bool(bad), "\n".join(lines)
   if data.get("part") == 1:
     c["api"] = tuple(c["api"])
     ctx = Ctx(list(data["choices"]))
